@@ -138,6 +138,7 @@ package codegen
 // declared under it.
 //@ func (*Package).Name
 //@   props C20 C01
+//@   option verify-only
 //@   shape p = new
 //@   shape p.QualifiedName = "github.com/a/b" | "a/b" | "b" | "" | "a/" | "/b" | "a//b"
 //@   assigns nothing
